@@ -43,4 +43,24 @@ def c04Eval : Handler := fun j => do
   let res := (getListD j "docs").map fun d => triToJson (call script 64 fn (some (jsonToJVal d)))
   return Json.mkObj [("results", Json.arr res.toArray), ("fn", fn)]
 
+def decPgFunc (j : Json) : PgFunc :=
+  let fn := getStrD j "fn"
+  let pairs (k : String) : List (String × String) := (getListD j k).map fun p => (getStrD p "a", getStrD p "b")
+  match getStrD j "k" with
+  | "enum" => .enum fn (getStrD j "kind") (getBoolD j "isInt") (strList j "tuple") (getStrD j "typeId")
+  | "array" => .array fn (getStrD j "elem") ((j.getObjValAs? Int "len").toOption.getD (-1))
+  | "map" => .map fn (getStrD j "elem")
+  | "struct" => .struct fn (pairs "fields")
+  | "union" => .union fn (pairs "cases")
+  | _ => .basic fn (getStrD j "kind")
+
+/-- op `c04.evalReal`: a script given as template instances (recognised in the real text by the
+harness): the text each instance prints to (the harness checks it is the real text, token for token)
+and the CHECK of `fn` on documents -/
+def c04EvalReal : Handler := fun j => do
+  let script := (getListD j "funcs").map decPgFunc
+  let fn := getStrD j "fn"
+  let res := (getListD j "docs").map fun d => triToJson (call script 64 fn (some (jsonToJVal d)))
+  return Json.mkObj [("texts", strs (script.map printFunc)), ("results", Json.arr res.toArray)]
+
 end Gomacro.Drv
